@@ -443,8 +443,9 @@ func (nfs *Nfs) doCreate(dfh nfstypes.Nfs_fh3, name nfstypes.Filename3, kind nfs
 		}
 	}
 	if kind == nfstypes.NF3LNK {
-		_, ok := ip.Write(op.Atxn, uint64(0), uint64(len(data)), data)
-		if !ok {
+		n, ok := ip.Write(op.Atxn, uint64(0), uint64(len(data)), data)
+		if !ok || n != uint64(len(data)) {
+			// no room for the whole target: a short write is not a symlink
 			nfs.doDecLink(op, ip)
 			err = nfstypes.NFS3ERR_NOSPC
 			return
